@@ -153,8 +153,19 @@ def derive_glob(rng, parts, vocab):
         if i + 1 < len(parts) and rng.random() < 0.10:
             # a branch token that spans two components (it contains a boundary): the walker must not prune by it
             two = esc(parts[i]) + '/' + esc(parts[i + 1])
-            k = rng.randrange(4)
-            if k == 0:
+            k = rng.randrange(6)
+            if k >= 4 and len(parts[i]) >= 2 and len(parts[i + 1]) >= 1:
+                # ... in the MIDDLE of its component: literal head, the spanning branch, literal tail (the head alone
+                # must not become a component program of its own)
+                a, b = parts[i], parts[i + 1]
+                cut_a = rng.randint(1, len(a) - 1)
+                cut_b = rng.randint(0, len(b) - 1) if len(b) > 1 else 0
+                head, mid, tail = esc(a[:cut_a]), esc(a[cut_a:]) + '/' + esc(b[:cut_b]) if cut_b else esc(a[cut_a:]) + '/', esc(b[cut_b:])
+                if k == 4:
+                    comps.append('%s{%s,%s}%s' % (head, mid, esc(rng.choice(vocab)), tail))
+                else:
+                    comps.append('%s<%s:0,1>%s' % (head, mid, tail))
+            elif k == 0 or k >= 4:
                 comps.append('{%s,%s}' % (two, esc(rng.choice(vocab))))
             elif k == 1:
                 comps.append('{%s,%s}' % (esc(rng.choice(vocab)), two))
